@@ -337,12 +337,16 @@ def generate (s : St) (c : Cache) : Option (St × Cache) := do
 def baseReward (c : Cache) (dsc amt : Nat) (t : Attrs) : Nat :=
   if t.rps < c.rps then amt * (c.rps - t.rps) / dsc else 0
 
-/-- `claim_boosted_yields_rewards(user, farm_amount)`: nothing without a config; otherwise
+/-- `claim_boosted_yields_rewards(user, farm_amount)`: without a config the reward is 0, but the
+    user's energy and claim progress are still moved to the current week
+    (`update_energy_and_progress(user)`, the repair of finding F6); otherwise
     `claim_multi` with the config updated (in memory) to the current week.
     Result: new weekly storage, new boosted storage, total paid. -/
 def claimBoostedYields (s : St) (user farmAmt : Nat) : Option (Weekly.St × B × Nat) :=
   match s.b.cfg with
-  | none => some (s.w, s.b, 0)
+  | none =>
+      (updateEnergyAndProgress s.w user s.week (Energy.queried (s.energy user) s.epoch)).map
+        fun w => (w, s.b, 0)
   | some c => do
       let c' ← c.update s.week none
       let cur := Energy.queried (s.energy user) s.epoch
